@@ -126,12 +126,15 @@ def c01_one(w, inp, c):
             w.violation(key, inp, detail)
     else:
         w.stats['roundtrip_exact'] += n
-    w.sample({'label': inp['label'], 'mode': inp['mode'], 'opt': inp['opt'], 'code_objects': n})
+    w.sample({'label': inp['label'], 'mode': inp.get('mode'), 'opt': inp.get('opt'), 'code_objects': n})
 
 
 def run_C01(w):
     for inp, c in programs(w):
         w.guard(c01_one, w, inp, c)
+    if w.shard == 0:
+        for inp, c in synthetic_codes(w):
+            w.guard(c01_one, w, inp, c)
 
 
 # ------------------------------------------------------------------------------------------------
@@ -198,14 +201,47 @@ def c13_check(w, inp, k, dk, rd):
             break
 
 
+def synthetic_codes(w):
+    """code objects CPython would emit only for enormous sources, assembled directly (harness/variants.py):
+    jumps whose operand needs two or three EXTENDED_ARG prefixes, in both directions"""
+    import variants
+    base = compile('None', '<synth>', 'eval')
+    NOP, JF, JA = dis.opmap['NOP'], dis.opmap['JUMP_FORWARD'], dis.opmap['JUMP_ABSOLUTE']
+    LC, RV = dis.opmap['LOAD_CONST'], dis.opmap['RETURN_VALUE']
+    def ins(op, arg=None, target=None, rel=False, extra=0):
+        return {'op': op, 'arg': arg, 'target': target, 'rel': rel, 'line': 1, 'extra': extra}
+    out = []
+    sizes = [70000 if O.V310 else 34000]
+    if w.tier == 'thorough':
+        sizes.append(140000 if O.V310 else 70000)
+    for n in sizes:
+        body = [ins(NOP) for _ in range(n)]
+        # forward relative jump over the body, absolute jump back to instruction 1, absolute jump to the end
+        prog = [ins(JF, target=n + 3, rel=True)] + body + [ins(JA, target=1), ins(JA, target=n + 3), ins(LC, 0), ins(RV)]
+        c = variants.rebuild(base, prog)
+        if c is not None:
+            out.append(({'kind': 'synthcode', 'label': 'big-jump-%d' % n, 'n': n}, c))
+    small = [ins(JF, target=3, rel=True, extra=2), ins(NOP), ins(JA, target=0, extra=3), ins(LC, 0), ins(RV)]
+    c = variants.rebuild(base, small)
+    if c is not None:
+        out.append(({'kind': 'synthcode', 'label': 'redundant-prefixes', 'n': 0}, c))
+    return out
+
+
 def run_C02(w):
     for inp, c in programs(w):
         w.guard(c02_one, w, inp, c, True, False)
+    if w.shard == 0:
+        for inp, c in synthetic_codes(w):
+            w.guard(c02_one, w, inp, c, True, False)
 
 
 def run_C13(w):
     for inp, c in programs(w):
         w.guard(c02_one, w, inp, c, False, True)
+    if w.shard == 0:
+        for inp, c in synthetic_codes(w):
+            w.guard(c02_one, w, inp, c, False, True)
 
 
 # ------------------------------------------------------------------------------------------------
@@ -440,7 +476,13 @@ def replay(w, rec):
         REPLAY[inp['kind']](w, prop, inp)
 
 
-REPLAY = {}
+def replay_synthcode(w, prop, inp):
+    for i2, c in synthetic_codes(w):
+        if i2['label'] == inp['label']:
+            ONE[prop](w, inp, c)
+
+
+REPLAY = {'synthcode': replay_synthcode}
 
 # further property groups register themselves in RUN / ONE / REPLAY
 import p_c04  # noqa
